@@ -37,6 +37,32 @@ class ModelledTypeError(TypeError, ModelledError):
     pass
 
 
+_WD = {'pid': None, 'deadline': None, 'ctx': None}
+
+
+def _watchdog_loop():
+    import time
+    lib = z3.z3core.lib()
+    while True:
+        time.sleep(0.25)
+        d = _WD['deadline']
+        if d is not None and time.time() > d:
+            _WD['deadline'] = None
+            lib.Z3_interrupt(_WD['ctx'])     # a late interrupt hits no query or the next one: 'unknown', which only adds paths / obligations
+
+
+def _watchdog_arm(ctx_ref, seconds):
+    import os
+    import threading
+    import time
+    if _WD['pid'] != os.getpid():            # threads do not survive fork: one watchdog per process, started on first use
+        _WD['pid'] = os.getpid()
+        t = threading.Thread(target=_watchdog_loop, name='z3-deadline', daemon=True)
+        t.start()
+    _WD['ctx'] = ctx_ref
+    _WD['deadline'] = time.time() + seconds
+
+
 class Obligation:
     __slots__ = ('name', 'hyps', 'goal', 'kind', 'path', 'note', 'uid', 'unit')
 
@@ -109,11 +135,29 @@ class Ctx:
         self.obl.append(Obligation(name, list(self.pc), _pointwise(goal), kind, list(self.prefix[:self.pos]), note))
         self.assume(goal, goal=True)     # after asserting, may assume
 
+    @staticmethod
+    def _check(sol, seconds=4.0):
+        """sol.check() with a hard deadline: z3 sometimes ignores its `timeout` / `rlimit` parameters inside quantifier instantiation (seen:
+        a helper query of the path-feasibility solver ran for more than half an hour).  A timer thread interrupts the context; an
+        interrupted query counts as 'unknown' (callers treat unknown as "feasible" / "not entailed": only adds paths or obligations).
+
+        The watchdog is ONE daemon thread per process that holds nothing but the raw context pointer and calls nothing but Z3_interrupt
+        (the only z3 entry point that may be called from another thread).  It must never own a reference to a z3 Python object: a
+        Timer per query holding `sol` released solvers from the timer thread, concurrently with the main thread's z3 calls, and
+        segfaulted libz3 in pool workers (which then dead-locked the pool on the task-queue lock the dead worker held)."""
+        _watchdog_arm(sol.ctx.ref(), seconds)
+        try:
+            return sol.check()
+        except z3.Z3Exception:
+            return z3.unknown
+        finally:
+            _WD['deadline'] = None
+
     def feasible(self, extra):
         extra = _linearize(extra)
         self.feas.push()
         self.feas.add(extra)
-        r = self.feas.check()
+        r = self._check(self.feas)
         self.feas.pop()
         if r == z3.unsat:
             return False
@@ -121,7 +165,7 @@ class Ctx:
             # the quantifier-free projection over-approximates feasibility: prune with the full context
             self.full.push()
             self.full.add(extra)
-            r = self.full.check()
+            r = self._check(self.full)
             self.full.pop()
             return r != z3.unsat
         return True
@@ -186,14 +230,14 @@ class Ctx:
             # the quantifier-free projection holds fewer hypotheses: what it entails is entailed (and it answers fast)
             self.feas.push()
             self.feas.add(_linearize(z3.Not(e)))
-            r0 = self.feas.check()
+            r0 = self._check(self.feas)
             self.feas.pop()
             if r0 == z3.unsat:
                 return True
         sol = self.full if self.full is not None else self.feas
         sol.push()
         sol.add(_linearize(z3.Not(e)))
-        r = sol.check()
+        r = self._check(sol)
         sol.pop()
         return r == z3.unsat
 
@@ -1520,9 +1564,9 @@ class SArr:
         return (lambda *ix: be(*srcix(ix))), (None if bn is None else (lambda *ix: bn(*srcix(ix))))
 
     # -- reductions and methods (delegated to the numpy shim so that the assumed contract lives in one place)
-    def sum(self, axis=None):
+    def sum(self, axis=None, keepdims=False):
         from . import npshim
-        return npshim.sum(self, axis=axis)
+        return npshim.sum(self, axis=axis, keepdims=keepdims)
 
     def mean(self, axis=None):
         from . import npshim
@@ -1734,6 +1778,16 @@ class SymList:
 
     def __sym_len__(self):
         return _c_or_s(self.n)
+
+    def __iter__(self):
+        # (without this python would fall back to the sequence protocol - __getitem__(0), (1), ... until IndexError, which never comes)
+        raise Unsupported('native iteration over a symbolic-length list (zip / for over the result of a symbolic comprehension)')
+
+    def __len__(self):
+        c_ = concrete(self.n)
+        if c_ is None:
+            raise Unsupported('len() of a symbolic-length list must go through the shadowed len')
+        return c_
 
     def __getitem__(self, j):
         if isinstance(j, slice):
